@@ -1,5 +1,6 @@
 import Mitx.Lemmas.Tree
 import Mitx.Lemmas.TreeShape
+import Mitx.Lemmas.Interval
 import Mitx.Props.C17
 /-! # C01 — range and `ok` consistency for every grader tree, through the whole call
 
@@ -216,6 +217,46 @@ theorem builtin_credit_range_geometric {f : ℚ} (h0 : 0 ≤ f) (h1 : f ≤ 1) (
 theorem builtin_credit_range_reciprocal (n : ℤ) :
     0 ≤ C17.creditOf reciprocalCredit n ∧ C17.creditOf reciprocalCredit n ≤ 1 :=
   creditOf_range (fun _ ha => C17.reciprocal_range ha) n
+
+/-! ## IntervalGrader -/
+
+/-- **IntervalGrader** (`check_response` + `grade_bracket` on top of the SingleListGrader machinery): the result has a grade in
+    [0,1] and an `ok` determined by it, given bracket credits and the answer's own credit in [0,1] (which answer validation
+    guarantees) and a subgrader for the bounds whose results are good -/
+theorem interval_result_good {α : Type} {cfg : IvCfg} {sub : α → String → M IRes} {pin : Bool} {m : AnsMeta} {opn cls : List BrAns}
+    {lo hi : α} {inp : String} {out : IRes} (hm0 : 0 ≤ m.grade) (hm1 : m.grade ≤ 1)
+    (hopn : ∀ b ∈ opn, 0 ≤ b.grade ∧ b.grade ≤ 1) (hcls : ∀ b ∈ cls, 0 ≤ b.grade ∧ b.grade ≤ 1)
+    (hsub : ∀ a, a = lo ∨ a = hi → ∀ i r, sub a i = .ok r → Good pin r)
+    (h : intervalCheckResponse cfg sub m opn lo hi cls inp = .ok out) : Good pin out :=
+  interval_good hm0 hm1 hopn hcls hsub h
+
+/-- the bracket rules: a bound that earned nothing is left alone; a bracket that no answer lists zeroes the bound; otherwise the
+    bound's credit is multiplied by the best credit among the bracket answers listing the character, `ok` recomputed -/
+theorem interval_bracket_rules (answers : List BrAns) (s : String) (e : IRes) :
+    (e.grade = 0 → gradeBracket answers s e = e) ∧
+    (e.grade ≠ 0 → (∀ b ∈ answers, ¬ lists s b) → (gradeBracket answers s e).grade = 0 ∧ (gradeBracket answers s e).ok = .no) ∧
+    (e.grade ≠ 0 → ∀ b, bestBracket answers s = some b →
+      (b ∈ answers ∧ lists s b ∧ ∀ b' ∈ answers, lists s b' → b'.grade ≤ b.grade) ∧
+      (gradeBracket answers s e).grade = e.grade * b.grade ∧ (gradeBracket answers s e).ok = gradeToOk (e.grade * b.grade)) := by
+  obtain ⟨r0, r1, r2⟩ := gradeBracket_rules answers s e
+  exact ⟨r0, r1, fun hne b hb => ⟨(bestBracket_spec answers s).2 b hb, r2 hne b hb⟩⟩
+
+/-- malformed submissions are refused with library errors, before anything is graded: fewer than five characters is a
+    (student-visible) ConfigError, a bracket outside the configured sets an InvalidInput -/
+theorem interval_refusals {α : Type} (cfg : IvCfg) (sub : α → String → M IRes) (m : AnsMeta) (opn cls : List BrAns) (lo hi : α)
+    (inp : String) :
+    ((pyStrip inp).length < 5 → ∃ msg, intervalCheckResponse cfg sub m opn lo hi cls inp = .error (Err.config msg)) ∧
+    (¬ (pyStrip inp).length < 5 → cfg.opening.toList.contains ((pyStrip inp).toList.headD ' ') = false →
+      ∃ msg, intervalCheckResponse cfg sub m opn lo hi cls inp = .error (.mitx "InvalidInput" msg)) := by
+  constructor
+  · intro h
+    unfold intervalCheckResponse
+    simp only [bind, Except.bind, h, ↓reduceIte, throw, throwThe, MonadExceptOf.throw]
+    exact ⟨_, rfl⟩
+  · intro h1 h2
+    unfold intervalCheckResponse
+    simp only [bind, Except.bind, h1, ↓reduceIte, h2, Bool.not_false, throw, throwThe, MonadExceptOf.throw, pure, Except.pure]
+    exact ⟨_, rfl⟩
 
 /-! non-vacuity: a SingleListGrader over a table leaf inside an unordered ListGrader, with partial credits -/
 def exLeaf : ITree := .table [⟨("a", "a"), 1, "", none⟩, ⟨("a", "b"), 1/2, "close", none⟩, ⟨("b", "b"), 1, "", none⟩] "wrong"
